@@ -63,6 +63,9 @@ func (r *Rand) Chance(num, den int) bool { return r.Intn(den) < num }
 
 func Pick[T any](r *Rand, xs []T) T { return xs[r.Intn(len(xs))] }
 
+// Pick3 returns one of three values.
+func (r *Rand) Pick3(a, b, c int) int { return [3]int{a, b, c}[r.Intn(3)] }
+
 // Fork derives an independent stream (so that adding draws in one place does not shift others).
 func (r *Rand) Fork() *Rand { return NewRand(r.U64()) }
 
